@@ -167,6 +167,54 @@ fn replay_inner(path: &str) {
     println!("LOGDIGEST {:016x}", report.log_digest);
 }
 
+/// Replays a `differs-in-fresh-process` violation: the recorded worker history is re-run up to
+/// the case, the case is run alone in a fresh process, and the two event-log digests compared.
+fn replay_history(path: &str, file: &replay::ReplayFile, h: &replay::History) -> i32 {
+    let digest_of = |offset: u64, stride: u64| -> Option<u64> {
+        let (code, out) = supervisor::run_child(
+            &[
+                "worker",
+                &file.property,
+                &h.tier,
+                &h.seed.to_string(),
+                &offset.to_string(),
+                &stride.to_string(),
+                &(h.index + 1).to_string(),
+                "/dev/shm/pyxis-sim-replay-raw",
+            ],
+            Duration::from_secs(1800),
+        );
+        if code != Some(0) {
+            return None;
+        }
+        out.lines()
+            .filter_map(|l| l.strip_prefix("E "))
+            .filter_map(|j| serde_json::from_str::<case::CaseReport>(j).ok())
+            .find(|r| r.index == h.index)
+            .map(|r| r.log_digest)
+    };
+    let in_history = digest_of(h.offset, h.stride);
+    let alone = digest_of(h.index, 1_000_000_007);
+    let _ = std::fs::remove_dir_all("/dev/shm/pyxis-sim-replay-raw");
+    match (in_history, alone) {
+        (Some(a), Some(b)) if a == b => {
+            println!("replay: held (recorded: {})", file.class);
+            0
+        }
+        (Some(_), Some(_)) => {
+            println!("VIOLATION property={} replay={}", file.property, path);
+            println!("CLASS {}", file.class);
+            println!("DETAIL {}", file.detail);
+            println!("SIGNATURE {}", findings::signature(&file.case, &file.class, &file.detail));
+            1
+        }
+        _ => {
+            eprintln!("harness error: could not re-run the recorded history");
+            2
+        }
+    }
+}
+
 /// Replays a file in a fresh child process; exit 1 with a VIOLATION line iff it still violates.
 fn replay_cmd(path: &str) -> i32 {
     let file = match replay::load(path) {
@@ -176,6 +224,9 @@ fn replay_cmd(path: &str) -> i32 {
             return 2;
         }
     };
+    if let Some(h) = &file.history {
+        return replay_history(path, &file, h);
+    }
     let (code, out) = supervisor::run_child(
         &["replay-inner", path],
         supervisor::CASE_WALL_CLOCK_CAP + Duration::from_secs(5),
